@@ -3,7 +3,7 @@ import numpy as np
 
 FLOAT_KINDS = [
     "noise", "mean_changes", "weak_changes", "var_changes", "spikes", "collective",
-    "ramp", "offset", "scaled_small", "scaled_big", "heavy",
+    "ramp", "offset", "scaled_small", "scaled_big", "heavy", "nested",
 ]
 EXACT_KINDS = ["constant", "piecewise_const", "small_alphabet", "dyadic"]
 ALL_KINDS = FLOAT_KINDS + EXACT_KINDS
@@ -83,6 +83,20 @@ def gen_data(rng, n, p, kind=None, boundary=None):
             anoms.append([t, e])
             t = e if rng.random() < 0.4 else e + int(rng.integers(1, max(2, n // 4)))
         meta["anoms"] = anoms
+    elif kind == "nested":
+        # a long weak anomaly over many columns with a short strong one inside (or just before)
+        X *= float(rng.choice([0.0, 0.1, 0.3, 1.0]))
+        a = int(rng.integers(0, max(1, n // 4)))
+        b = int(rng.integers(min(n, a + max(2, n // 2)), n + 1)) if n > 3 else n
+        wide = rng.random(p) < 0.8
+        if not wide.any():
+            wide[:] = True
+        X[a:b, wide] += rng.uniform(0.3, 1.0) * rng.choice([-1, 1])
+        if b - a > 3:
+            c = int(rng.integers(a, b - 1))
+            d = min(b, c + int(rng.integers(1, max(2, (b - a) // 4))))
+            X[c:d, int(rng.integers(p))] += rng.uniform(2.0, 5.0) * rng.choice([-1, 1])
+            meta["anoms"] = [[a, b], [c, d]]
     elif kind == "ramp":
         X = X * 0.3 + np.linspace(0, rng.uniform(1, 20), n)[:, None] * rng.choice([-1, 1], size=p)
     elif kind == "offset":
